@@ -18,6 +18,7 @@ type RetryTransaction struct {
 	retryCount    uint
 	retryNumMutex sync.Mutex
 	retryNum      uint
+	timerMutex    sync.Mutex
 	timer         *time.Timer
 	retryCallback RTRetryCallback
 	State         interface{}
@@ -80,13 +81,25 @@ func (t *RetryTransaction) Proceed(state interface{}, data interface{}) {
 }
 
 func (t *RetryTransaction) stopTimer() {
+	t.timerMutex.Lock()
+	defer t.timerMutex.Unlock()
+
 	if t.timer != nil {
 		t.timer.Stop()
 	}
 }
 
 func (t *RetryTransaction) restartTimer() {
-	t.stopTimer()
+	t.timerMutex.Lock()
+	defer t.timerMutex.Unlock()
+
+	if t.timer != nil {
+		t.timer.Stop()
+	}
+	// A finished transaction must not retry anymore.
+	if t.isDone() {
+		return
+	}
 	t.timer = time.AfterFunc(t.retryDelay, t.timeout)
 }
 
@@ -94,6 +107,10 @@ func (t *RetryTransaction) timeout() {
 	t.retryNumMutex.Lock()
 	defer t.retryNumMutex.Unlock()
 
+	// The transaction has finished while the timer was firing.
+	if t.isDone() {
+		return
+	}
 	t.retryNum++
 	if t.retryNum > t.retryCount {
 		t.Fail(ErrNoMoreRetries)
@@ -101,6 +118,7 @@ func (t *RetryTransaction) timeout() {
 	}
 	if err := t.retryCallback(t.Data); err != nil {
 		t.Fail(err)
+		return
 	}
 	t.restartTimer()
 }
